@@ -177,8 +177,11 @@ pub fn certs_pem(ders: &[Vec<u8>]) -> String {
 #[derive(Clone, Copy, Debug, PartialEq, Eq, Hash, PartialOrd, Ord)]
 pub enum KeyKind {
     Rsa(u32),
-    /// RSA key whose SubjectPublicKeyInfo algorithm is id-RSASSA-PSS
+    /// RSA key whose SubjectPublicKeyInfo algorithm is id-RSASSA-PSS, parameters absent
     RsaPss(u32),
+    /// RSA key whose SubjectPublicKeyInfo algorithm is id-RSASSA-PSS with RSASSA-PSS-params
+    /// (SHA-256, MGF1-SHA-256, salt 32)
+    RsaPssParams(u32),
     P256,
     P384,
     P521,
@@ -194,6 +197,7 @@ impl KeyKind {
         match self {
             KeyKind::Rsa(b) => format!("rsa{b}"),
             KeyKind::RsaPss(b) => format!("rsapss{b}"),
+            KeyKind::RsaPssParams(b) => format!("rsapssparams{b}"),
             KeyKind::P256 => "p256".into(),
             KeyKind::P384 => "p384".into(),
             KeyKind::P521 => "p521".into(),
@@ -204,7 +208,7 @@ impl KeyKind {
     }
 
     pub fn is_rsa(&self) -> bool {
-        matches!(self, KeyKind::Rsa(_) | KeyKind::RsaPss(_))
+        matches!(self, KeyKind::Rsa(_) | KeyKind::RsaPss(_) | KeyKind::RsaPssParams(_))
     }
 
     pub fn is_ec(&self) -> bool {
@@ -223,17 +227,44 @@ pub struct Key {
     pub key_id: Vec<u8>,
 }
 
+/// Split one DER TLV off the front: (tag, content, rest). Definite lengths only.
+fn split_tlv(b: &[u8]) -> (u8, &[u8], &[u8]) {
+    let tag = b[0];
+    let (len, hdr) = if b[1] < 0x80 {
+        (b[1] as usize, 2)
+    } else {
+        let n = (b[1] & 0x7f) as usize;
+        (b[2..2 + n].iter().fold(0usize, |a, x| (a << 8) | *x as usize), 2 + n)
+    };
+    (tag, &b[hdr..hdr + len], &b[hdr + len..])
+}
+
+/// `SubjectPublicKeyInfo { rsaEncryption NULL, BIT STRING RSAPublicKey }` with the algorithm
+/// replaced by id-RSASSA-PSS (parameters absent, or RSASSA-PSS-params for SHA-256); the key bits
+/// are unchanged.
+fn relabel_rsa_spki(spki: &[u8], with_params: bool) -> Vec<u8> {
+    let (_, content, _) = split_tlv(spki);
+    let (_, _alg, rest) = split_tlv(content);
+    let (tag, bits, _) = split_tlv(rest);
+    assert_eq!(tag, 0x03);
+    let pss = oid("1.2.840.113549.1.1.10");
+    let alg = if with_params {
+        let hash_ai = seq(&[oid(Md::Sha256.oid()), null()]);
+        let mgf_ai = seq(&[oid("1.2.840.113549.1.1.8"), seq(&[oid(Md::Sha256.oid()), null()])]);
+        seq(&[pss, seq(&[tlv(0xa0, &hash_ai), tlv(0xa1, &mgf_ai), tlv(0xa2, &int_u64(32))])])
+    } else {
+        seq(&[pss])
+    };
+    seq(&[alg, tlv(0x03, bits)])
+}
+
 pub fn gen_key(kind: KeyKind) -> Key {
     let pkey = match kind {
         KeyKind::Rsa(bits) => PKey::from_rsa(Rsa::generate(bits).expect("rsa")).expect("pkey"),
-        KeyKind::RsaPss(bits) => {
-            // the crate has no RSA-PSS keygen; the CLI has
-            let out = std::process::Command::new("openssl")
-                .args(["genpkey", "-algorithm", "RSA-PSS", "-pkeyopt"])
-                .arg(format!("rsa_keygen_bits:{bits}"))
-                .output()
-                .expect("openssl genpkey");
-            PKey::private_key_from_pem(&out.stdout).expect("rsa-pss pem")
+        // the private key stays a plain RSA key; only the SubjectPublicKeyInfo label placed in
+        // certificates differs (rewritten below)
+        KeyKind::RsaPss(bits) | KeyKind::RsaPssParams(bits) => {
+            PKey::from_rsa(Rsa::generate(bits).expect("rsa")).expect("pkey")
         }
         KeyKind::P256 | KeyKind::P384 | KeyKind::P521 | KeyKind::Secp256k1 | KeyKind::P256Explicit => {
             let nid = match kind {
@@ -251,6 +282,11 @@ pub fn gen_key(kind: KeyKind) -> Key {
         KeyKind::Ed25519 => PKey::generate_ed25519().expect("ed25519"),
     };
     let spki = pkey.public_key_to_der().expect("spki");
+    let spki = match kind {
+        KeyKind::RsaPss(_) => relabel_rsa_spki(&spki, false),
+        KeyKind::RsaPssParams(_) => relabel_rsa_spki(&spki, true),
+        _ => spki,
+    };
     let pem = pkey.private_key_to_pem_pkcs8().expect("pkcs8");
     let key_id = openssl::sha::sha256(&spki)[..20].to_vec();
     Key { kind, pkey, spki, pem, key_id }
@@ -331,7 +367,9 @@ impl SigAlg {
     pub fn default_for(kind: KeyKind) -> SigAlg {
         match kind {
             KeyKind::Rsa(_) => SigAlg::RsaPkcs1(Md::Sha256),
-            KeyKind::RsaPss(_) => SigAlg::RsaPss(Md::Sha256, PssParams::Full { mgf: Md::Sha256 }),
+            KeyKind::RsaPss(_) | KeyKind::RsaPssParams(_) => {
+                SigAlg::RsaPss(Md::Sha256, PssParams::Full { mgf: Md::Sha256 })
+            }
             KeyKind::P384 => SigAlg::Ecdsa(Md::Sha384),
             KeyKind::P521 => SigAlg::Ecdsa(Md::Sha512),
             KeyKind::P256 | KeyKind::Secp256k1 | KeyKind::P256Explicit => SigAlg::Ecdsa(Md::Sha256),
